@@ -50,14 +50,33 @@ Proof.
   - rewrite H. reflexivity.
 Qed.
 
+(* The agreement lemmas below do not follow the shape of the generated text: they split on the
+   atoms both sides are built from (the membership test, the sign tests of the casts, the two
+   configuration flags, the mechanisms' answers) and compare the results.  A refactoring of the
+   source that leaves the decisions alone (if-with-init, renamed locals, a `continue` instead
+   of a trailing block) keeps them valid; a changed guard, argument or return does not. *)
+Ltac loop_atoms :=
+  repeat (cbn [gen_bind gen_end_iter gen_is_nil fst snd negb andb orb pk_key pk_act pk_kci pk_eon];
+          match goal with
+          | |- context [is_member ?a ?b] => destruct (is_member a b)
+          | |- context [Z.ltb ?a ?b] => destruct (Z.ltb a b)
+          | |- context [Z.leb ?a ?b] => destruct (Z.leb a b)
+          | |- context [h_bcast ?h] => destruct (h_bcast h)
+          | |- context [h_cb ?h] => destruct (h_cb h)
+          | |- context [next_answer ?l] =>
+              let a := fresh "a" in let r := fresh "ans" in
+              destruct (next_answer l) as [a r]; destruct a
+          end);
+  cbn [gen_bind gen_end_iter gen_is_nil fst snd negb andb orb pk_key pk_act pk_kci pk_eon app];
+  rewrite ?app_nil_r, <- ?app_assoc; reflexivity.
+
 (* broadcastEonPublicKey hands exactly one message to Messaging.SendMessage: the configured
    instance id and the four fields, each in its place *)
 Lemma gen_broadcast_agrees h pk st :
   gen_broadcast_eon_public_key h pk st = gen_env_call (CBroadcast (h_instance h) pk) st.
 Proof.
   unfold gen_broadcast_eon_public_key, gen_new_signed_eon_public_key, gen_env_call.
-  destruct pk as [k a c e]. simpl.
-  destruct (next_answer (snd st)) as [ans rest]. destruct ans; reflexivity.
+  destruct pk as [k a c e]. loop_atoms.
 Qed.
 
 Definition flow_of_err (e : err) : gen_flow :=
@@ -66,37 +85,29 @@ Definition flow_of_err (e : err) : gen_flow :=
 Definition ret_of_err (e : err) : gen_ret :=
   match e with ENone => RNil | _ => RErr e end.
 
-(* one iteration of the loop *)
+(* one iteration of the loop, up to its end (where a `continue` and falling off the body are
+   the same thing and a return is not) *)
 Lemma gen_loop_body_agrees h j cs0 answers :
-  gen_loop_body h j (cs0, answers) =
+  gen_end_iter (gen_loop_body h j (cs0, answers)) =
   let '(cs, ans', e) := handle_row h j answers in ((cs0 ++ cs, ans'), flow_of_err e).
 Proof.
-  unfold gen_loop_body, handle_row, prepare.
-  rewrite gen_get_keyper_index_agrees.
-  change (gen_int64_to_uint64_safe (j_act j)) with (safe_cast (j_act j)).
-  change (gen_int32_to_uint64_safe (j_kci j)) with (safe_cast (j_kci j)).
-  change (gen_int64_to_uint64_safe (j_eon j)) with (safe_cast (j_eon j)).
-  destruct (is_member (h_self h) (j_keypers j)); simpl; [|rewrite app_nil_r; reflexivity].
-  destruct (safe_cast (j_act j)) as [act|]; simpl; [|rewrite app_nil_r; reflexivity].
-  destruct (safe_cast (j_kci j)) as [kci|]; simpl; [|rewrite app_nil_r; reflexivity].
-  destruct (safe_cast (j_eon j)) as [e|]; simpl; [|rewrite app_nil_r; reflexivity].
-  destruct (h_bcast h); destruct (h_cb h); simpl;
-    rewrite ?gen_broadcast_agrees; unfold gen_env_call; simpl.
-  - destruct (next_answer answers) as [a1 ans1]. destruct a1; simpl; [|reflexivity].
-    destruct (next_answer ans1) as [a2 ans2]. rewrite <- app_assoc. destruct a2; reflexivity.
-  - destruct (next_answer answers) as [a1 ans1]. destruct a1; reflexivity.
-  - destruct (next_answer answers) as [a1 ans1]. destruct a1; reflexivity.
-  - rewrite app_nil_r. reflexivity.
+  unfold gen_loop_body, handle_row, prepare, safe_cast,
+    gen_int64_to_uint64_safe, gen_int32_to_uint64_safe,
+    gen_broadcast_eon_public_key, gen_new_signed_eon_public_key, gen_env_call, flow_of_err.
+  rewrite ?gen_get_keyper_index_agrees.
+  loop_atoms.
 Qed.
 
 Lemma gen_fold_ret h rows st x :
-  fold_left (fun acc r => gen_bind acc (fun st => gen_loop_body h r st)) rows (st, Ret x) = (st, Ret x).
+  fold_left (fun acc r => gen_bind acc (fun st => gen_end_iter (gen_loop_body h r st))) rows (st, Ret x)
+  = (st, Ret x).
 Proof. induction rows as [|r rest IH]; simpl; [reflexivity|exact IH]. Qed.
 
 (* the loop: a fold whose accumulator remembers that the function has returned *)
 Lemma gen_loop_agrees h rows : forall cs0 answers,
   exists ans',
-    fold_left (fun acc r => gen_bind acc (fun st => gen_loop_body h r st)) rows ((cs0, answers), Next) =
+    fold_left (fun acc r => gen_bind acc (fun st => gen_end_iter (gen_loop_body h r st))) rows
+              ((cs0, answers), Next) =
     ((cs0 ++ fst (handle_rows h rows answers), ans'), flow_of_err (snd (handle_rows h rows answers))).
 Proof.
   induction rows as [|r rest IH]; intros cs0 answers.
